@@ -1,9 +1,908 @@
 package main
 
 import (
+	"bufio"
+	"bytes"
+	"encoding/json"
+	"fmt"
+	"math/big"
 	"math/rand"
+	"os"
+	"os/exec"
+	"sort"
+	"sync"
+	"time"
 	. "zharness/hz"
+
+	g "github.com/zenon-network/go-zenon/chain/genesis/mock"
+	"github.com/zenon-network/go-zenon/chain/nom"
+	"github.com/zenon-network/go-zenon/chain/store"
+	"github.com/zenon-network/go-zenon/common/db"
+	"github.com/zenon-network/go-zenon/common/types"
+	"github.com/zenon-network/go-zenon/consensus"
+	"github.com/zenon-network/go-zenon/consensus/api"
+	"github.com/zenon-network/go-zenon/verifier"
+	"github.com/zenon-network/go-zenon/vm"
+	"github.com/zenon-network/go-zenon/vm/constants"
+	"github.com/zenon-network/go-zenon/vm/embedded/definition"
+	"github.com/zenon-network/go-zenon/wallet"
+	"github.com/zenon-network/go-zenon/zenon/mock"
 )
 
-func runNode(rng *rand.Rand, n int, out *Out, args []string)       {}
-func runNodeWorker(rng *rand.Rand, n int, out *Out, args []string) {}
+// ---- parent: runs the histories in child processes (the mock node uses process globals: clock, epoch duration)
+func runNode(rng *rand.Rand, n int, out *Out, args []string) {
+	exe, err := os.Executable()
+	if err != nil {
+		panic(err)
+	}
+	workers := 4
+	if n < workers {
+		workers = n
+	}
+	if workers == 0 {
+		return
+	}
+	base := rng.Int63n(1 << 40)
+	files := make([]string, workers)
+	var wg sync.WaitGroup
+	errs := make([]error, workers)
+	for w := 0; w < workers; w++ {
+		k := n / workers
+		if w < n%workers {
+			k++
+		}
+		f, err := os.CreateTemp("", "c11node")
+		if err != nil {
+			panic(err)
+		}
+		f.Close()
+		files[w] = f.Name()
+		a := []string{"nodeworker", "-seed", fmt.Sprint(base + int64(w)), "-n", fmt.Sprint(k), "-out", files[w]}
+		if w == 0 {
+			a = append(a, "repro")
+		}
+		wg.Add(1)
+		go func(w int, a []string) {
+			defer wg.Done()
+			cmd := exec.Command(exe, a...)
+			var buf bytes.Buffer
+			cmd.Stdout, cmd.Stderr = &buf, &buf
+			if err := cmd.Run(); err != nil {
+				errs[w] = fmt.Errorf("%v: %s", err, tail(buf.String(), 1500))
+			}
+		}(w, a)
+	}
+	wg.Wait()
+	for w := 0; w < workers; w++ {
+		if errs[w] != nil {
+			fmt.Fprintln(os.Stderr, "worker failed:", errs[w])
+			os.Exit(3)
+		}
+		f, err := os.Open(files[w])
+		if err != nil {
+			panic(err)
+		}
+		sc := bufio.NewScanner(f)
+		sc.Buffer(make([]byte, 1<<20), 1<<28)
+		for sc.Scan() {
+			var m M
+			d := json.NewDecoder(bytes.NewReader(sc.Bytes()))
+			d.UseNumber()
+			if err := d.Decode(&m); err != nil {
+				panic(err)
+			}
+			switch m["k"] {
+			case "case":
+				out.Cases++
+			case "oracle":
+				out.Fails++
+			}
+			out.Emit(m)
+		}
+		f.Close()
+		os.Remove(files[w])
+	}
+}
+
+func tail(s string, n int) string {
+	if len(s) > n {
+		return s[len(s)-n:]
+	}
+	return s
+}
+
+func runNodeWorker(rng *rand.Rand, n int, out *Out, args []string) {
+	if len(args) > 0 && args[0] == "repro" {
+		liquidityLateUpdate(out)
+	}
+	for i := 0; i < n; i++ {
+		nodeHistory(rng, out)
+	}
+}
+
+// ---- one real node with a custom epoch duration
+func newNodeEpoch(d time.Duration) *Node {
+	verifier.ReceiverMismatchEnforcementHeight = 0
+	t := &FakeT{}
+	z := mock.NewMockZenonWithCustomEpochDuration(t, d)
+	Quiet()
+	return &Node{T: t, Z: z, Ch: z.Chain(), Cs: z.Consensus(), Sv: vm.NewSupervisor(z.Chain(), z.Consensus())}
+}
+
+var defaultWUpdate = append([]types.Address{}, types.EmbeddedWUpdate...)
+var defaultConsts = struct{ stakeUnit, stakeMin, stakeMax, sentLock, sentRevoke, pilLock, pilRevoke int64 }{
+	constants.StakeTimeUnitSec, constants.StakeTimeMinSec, constants.StakeTimeMaxSec, constants.SentinelLockTimeWindow,
+	constants.SentinelRevokeTimeWindow, constants.PillarEpochLockTime, constants.PillarEpochRevokeTime}
+
+func setWindows(short bool) {
+	d := defaultConsts
+	if short {
+		constants.StakeTimeUnitSec, constants.StakeTimeMinSec, constants.StakeTimeMaxSec = 600, 600, 7200
+		constants.SentinelLockTimeWindow, constants.SentinelRevokeTimeWindow = 900, 600
+		constants.PillarEpochLockTime, constants.PillarEpochRevokeTime = 1200, 900
+	} else {
+		constants.StakeTimeUnitSec, constants.StakeTimeMinSec, constants.StakeTimeMaxSec = d.stakeUnit, d.stakeMin, d.stakeMax
+		constants.SentinelLockTimeWindow, constants.SentinelRevokeTimeWindow = d.sentLock, d.sentRevoke
+		constants.PillarEpochLockTime, constants.PillarEpochRevokeTime = d.pilLock, d.pilRevoke
+	}
+}
+
+var rewardContracts = []types.Address{types.PillarContract, types.StakeContract, types.SentinelContract, types.LiquidityContract}
+var contractName = map[types.Address]string{types.PillarContract: "pillar", types.StakeContract: "stake", types.SentinelContract: "sentinel", types.LiquidityContract: "liquidity"}
+
+type stakeRef struct {
+	owner *wallet.KeyPair
+	id    types.Hash
+	exp   int64
+	gone  bool
+}
+
+type nodeHist struct {
+	nd      *Node
+	rng     *rand.Rand
+	out     *Out
+	dur     int64
+	genesis int64
+	short   bool
+	auto    bool
+
+	addrIdx map[types.Address]int
+	nameIdx map[string]int
+	seen    map[types.Address]uint64
+	minted  map[types.Address]map[types.Address][2]*big.Int
+	liqMint [2]*big.Int
+	stats   map[uint64]string // epoch -> canonical statistics as seen when the pillar contract rewarded it
+
+	pillarStage map[int]int // key index in g.PillarKeys -> 0 none, 1 qsr deposited, 2 registered, 3 revoked
+	pillarAt    map[int]uint64
+	sentStage   map[types.Address]int
+	sentAt      map[types.Address]uint64
+	stakes      []*stakeRef
+	supply0     *big.Int
+}
+
+func (h *nodeHist) aidx(a types.Address) int {
+	if i, ok := h.addrIdx[a]; ok {
+		return i
+	}
+	i := len(h.addrIdx)
+	h.addrIdx[a] = i
+	return i
+}
+func (h *nodeHist) nidx(n string) int {
+	if i, ok := h.nameIdx[n]; ok {
+		return i
+	}
+	i := len(h.nameIdx)
+	h.nameIdx[n] = i
+	return i
+}
+
+func (h *nodeHist) send(kp *wallet.KeyPair, to types.Address, zts types.ZenonTokenStandard, amount *big.Int, data []byte) *nom.AccountBlock {
+	if amount == nil {
+		amount = big.NewInt(0)
+	}
+	tpl := &nom.AccountBlock{BlockType: nom.BlockTypeUserSend, Address: kp.Address, ToAddress: to, TokenStandard: zts, Amount: amount, Data: data}
+	tx, err := h.nd.Sv.GenerateFromTemplate(tpl, kp.Signer)
+	if err != nil {
+		h.out.Count("node:send-rejected")
+		return nil
+	}
+	if err := h.nd.Insert(tx); err != nil {
+		h.out.Count("node:insert-failed")
+		return nil
+	}
+	return tx.Block
+}
+
+func (h *nodeHist) height() uint64 { return h.nd.FrontierHeight() }
+func (h *nodeHist) nowTs() int64 {
+	m, _ := h.nd.Ch.GetFrontierMomentumStore().GetFrontierMomentum()
+	return m.Timestamp.Unix()
+}
+
+func (h *nodeHist) momentum() {
+	if h.rng.Intn(14) == 0 {
+		mock.VerifInsertMomentumSkipping(h.nd.Z, 1+h.rng.Intn(3))
+		h.out.Count("node:skipped-slots")
+	} else {
+		h.nd.Momentum()
+	}
+	h.observe()
+}
+
+// ---- contract state readers
+type cstate struct {
+	last int64
+	hist map[uint64][]credit
+}
+
+func (h *nodeHist) readState(st store.Account) *cstate {
+	return &cstate{last: lastEpochOf(st.Storage()), hist: readHistory(st.Storage(), h.aidx)}
+}
+
+func histKey(e uint64, a int) string { return fmt.Sprintf("%d/%d", e, a) }
+func flatten(hs map[uint64][]credit) map[string]credit {
+	r := map[string]credit{}
+	for e, l := range hs {
+		for _, c := range l {
+			r[histKey(e, c.addr)] = c
+		}
+	}
+	return r
+}
+
+var updateData = definition.ABICommon.PackMethodPanic(definition.UpdateMethodName)
+var collectData = definition.ABICommon.PackMethodPanic(definition.CollectRewardMethodName)
+
+// observe every new block of the four reward contracts while it is still unconfirmed: the account store
+// before and after the block are then both available
+func (h *nodeHist) observe() {
+	for _, c := range rewardContracts {
+		blocks := h.nd.Ch.GetUncommittedAccountBlocksByAddress(c)
+		for _, b := range blocks {
+			if b.Height <= h.seen[c] {
+				continue
+			}
+			h.seen[c] = b.Height
+			if b.BlockType != nom.BlockTypeContractReceive {
+				continue
+			}
+			prev := b.Previous()
+			if len(b.DescendantBlocks) > 0 {
+				prev = b.DescendantBlocks[0].Previous()
+			}
+			before := h.nd.Ch.GetAccountStore(c, prev)
+			after := h.nd.Ch.GetAccountStore(c, b.Identifier())
+			if before == nil || after == nil {
+				h.out.Oracle(false, "harness-store-unavailable", M{"contract": contractName[c], "height": U64(b.Height)})
+				continue
+			}
+			sendB, err := h.nd.Ch.GetFrontierMomentumStore().GetAccountBlockByHash(b.FromBlockHash)
+			if err != nil || sendB == nil {
+				h.out.Oracle(false, "harness-send-block-unavailable", M{"contract": contractName[c]})
+				continue
+			}
+			h.observeReceive(c, b, sendB, before, after)
+		}
+	}
+}
+
+func (h *nodeHist) observeReceive(c types.Address, b, sendB *nom.AccountBlock, before, after store.Account) {
+	sb, sa := h.readState(before), h.readState(after)
+	fb, fa := flatten(sb.hist), flatten(sa.hist)
+	ackM, err := h.nd.Ch.GetFrontierMomentumStore().GetMomentumByHash(b.MomentumAcknowledged.Hash)
+	if err != nil || ackM == nil {
+		h.out.Oracle(false, "harness-ack-momentum-unavailable", nil)
+		return
+	}
+	now := ackM.Timestamp.Unix()
+
+	// paid once / in order: history entries appear or change only for the epochs the cursor passes in this very block
+	okHist := true
+	for k, ca := range fa {
+		cb, had := fb[k]
+		changed := !had || cb.znn.Cmp(ca.znn) != 0 || cb.qsr.Cmp(ca.qsr) != 0
+		if !changed {
+			continue
+		}
+		var e uint64
+		var a int
+		fmt.Sscanf(k, "%d/%d", &e, &a)
+		if !(int64(e) > sb.last && int64(e) <= sa.last) {
+			okHist = false
+		}
+	}
+	for k := range fb {
+		if _, ok := fa[k]; !ok {
+			okHist = false
+		}
+	}
+	h.out.Oracle(okHist, "reward-history-changes-only-for-epochs-passed-now", M{"contract": contractName[c], "last_before": I64(sb.last), "last_after": I64(sa.last)})
+	h.out.Oracle(sa.last >= sb.last, "cursor-never-decreases", M{"contract": contractName[c]})
+
+	isUpdate := bytes.Equal(sendB.Data, updateData)
+	isCollect := bytes.Equal(sendB.Data, collectData)
+	if !isUpdate {
+		h.out.Oracle(sa.last == sb.last, "cursor-moves-only-in-update", M{"contract": contractName[c]})
+	}
+	if isCollect {
+		h.observeCollect(c, b, sendB, before, after)
+	}
+	if !isUpdate || sa.last == sb.last {
+		if isUpdate {
+			h.out.Count("node:update-no-epoch-due:" + contractName[c])
+		}
+		return
+	}
+	h.out.Count(fmt.Sprintf("node:update:%s:epochs=%d", contractName[c], min64(sa.last-sb.last, 12)))
+	// every passed epoch ended at least RewardTimeLimit before the acknowledged momentum; the next one is not yet due
+	endLast := h.genesis + h.dur*(sa.last+1)
+	h.out.Oracle(endLast+constants.RewardTimeLimit <= now, "cursor-only-after-grace-period",
+		M{"contract": contractName[c], "last_after": I64(sa.last), "now": I64(now)})
+	if c != types.LiquidityContract {
+		h.out.Oracle(now < h.genesis+h.dur*(sa.last+2)+constants.RewardTimeLimit, "cursor-rewards-all-due-epochs",
+			M{"contract": contractName[c], "last_after": I64(sa.last), "now": I64(now)})
+	}
+
+	reader := h.nd.Cs.FixedPillarReader(b.MomentumAcknowledged)
+	switch c {
+	case types.PillarContract:
+		infos, err := definition.GetPillarsList(before.Storage(), false, definition.AnyPillarType)
+		if err != nil {
+			panic(err)
+		}
+		for e := sb.last + 1; e <= sa.last; e++ {
+			h.pillarEpoch(uint64(e), reader, infos, sa.hist[uint64(e)])
+		}
+	case types.StakeContract:
+		var entries []*definition.StakeInfo
+		definition.IterateStakeEntries(before.Storage(), func(s *definition.StakeInfo) error { entries = append(entries, s); return nil })
+		for e := sb.last + 1; e <= sa.last; e++ {
+			entries = h.stakeEpoch(uint64(e), entries, sa.hist[uint64(e)], e == sa.last, after)
+		}
+	case types.SentinelContract:
+		var entries []*definition.SentinelInfo
+		definition.IterateSentinelEntries(before.Storage(), func(s *definition.SentinelInfo) error { entries = append(entries, s); return nil })
+		for e := sb.last + 1; e <= sa.last; e++ {
+			h.sentinelEpoch(uint64(e), entries, sa.hist[uint64(e)])
+		}
+	case types.LiquidityContract:
+		h.liquidityUpdate(b, sb.last, sa.last)
+	}
+}
+
+func min64(a, b int64) int64 {
+	if a < b {
+		return a
+	}
+	return b
+}
+
+func statsString(st *api.EpochStats) string {
+	names := make([]string, 0, len(st.Pillars))
+	for n := range st.Pillars {
+		names = append(names, n)
+	}
+	sort.Strings(names)
+	s := fmt.Sprintf("%d|%s|", st.Epoch, st.TotalWeight)
+	for _, n := range names {
+		p := st.Pillars[n]
+		s += fmt.Sprintf("%s:%d/%d/%s;", n, p.BlockNum, p.ExceptedBlockNum, p.Weight)
+	}
+	return s
+}
+
+func (h *nodeHist) pillarEpoch(e uint64, reader api.PillarReader, infos []*definition.PillarInfo, credits []credit) {
+	st, err := reader.EpochStats(e)
+	if err != nil || st == nil {
+		h.out.Oracle(false, "harness-epoch-stats-unavailable", M{"epoch": U64(e)})
+		return
+	}
+	h.stats[e] = statsString(st)
+	details, err := reader.GetPillarDelegationsByEpoch(e)
+	if err != nil {
+		h.out.Oracle(false, "harness-delegations-unavailable", M{"epoch": U64(e)})
+		return
+	}
+	// the hypothesis of C11_pillar_bounded, checked on what the consensus module really produced
+	wf := true
+	sumW := big.NewInt(0)
+	var totalExp uint64
+	names := make([]string, 0, len(st.Pillars))
+	for n := range st.Pillars {
+		names = append(names, n)
+	}
+	sort.Strings(names)
+	ps := Lst()
+	missed := false
+	for _, n := range names {
+		p := st.Pillars[n]
+		if p.BlockNum > p.ExceptedBlockNum || p.Weight.Sign() < 0 {
+			wf = false
+		}
+		if p.BlockNum < p.ExceptedBlockNum {
+			missed = true
+		}
+		sumW.Add(sumW, p.Weight)
+		totalExp += p.ExceptedBlockNum
+		ps = append(ps, Tup(I64(int64(h.nidx(n))), U64(p.BlockNum), U64(p.ExceptedBlockNum), Big(p.Weight)))
+	}
+	if sumW.Cmp(st.TotalWeight) > 0 {
+		wf = false
+	}
+	slots := uint64(h.dur / constants.ConsensusConfig.BlockTime)
+	h.out.Oracle(wf && totalExp == slots, "epoch-stats-well-formed",
+		M{"epoch": U64(e), "stats": h.stats[e], "slots": U64(slots), "total_expected": U64(totalExp)})
+
+	it := Lst()
+	for _, pi := range infos {
+		it = append(it, Tup(I64(int64(h.nidx(pi.Name))), I64(int64(pi.GiveBlockRewardPercentage)), I64(int64(pi.GiveDelegateRewardPercentage)),
+			I64(int64(h.aidx(pi.RewardWithdrawAddress)))))
+	}
+	dt := Lst()
+	dnames := make([]string, 0, len(details))
+	for n := range details {
+		dnames = append(dnames, n)
+	}
+	sort.Strings(dnames)
+	nb := 0
+	for _, n := range dnames {
+		d := details[n]
+		type ba struct {
+			a   int
+			amt *big.Int
+		}
+		var bl []ba
+		for a, amt := range d.Backers {
+			bl = append(bl, ba{h.aidx(a), amt})
+		}
+		sort.Slice(bl, func(i, j int) bool { return bl[i].a < bl[j].a })
+		bt := Lst()
+		for _, x := range bl {
+			bt = append(bt, Tup(I64(int64(x.a)), Big(x.amt)))
+			nb++
+		}
+		dt = append(dt, Tup(I64(int64(h.nidx(n))), bt))
+	}
+	tag := "node"
+	if missed {
+		tag = "node-missed-momentums"
+	}
+	if len(st.Pillars) > 3 {
+		tag += "-more-pillars"
+	}
+	h.out.Case("pillar_epoch", Tup(U64(e), Big(st.TotalWeight), ps, it, dt), Tup(I64(0), credTerm(credits, true)), tag)
+
+	d, b := constants.PillarRewardPerMomentum(e)
+	bound := new(big.Int).Add(d, b)
+	bound.Mul(bound, new(big.Int).SetUint64(totalExp))
+	z, q := sumCredits(credits)
+	// share of the epoch's emission, scaled to the number of momentum slots of this epoch duration
+	share := big.NewInt(constants.NetworkZnnRewardPerEpoch(e))
+	share.Mul(share, big.NewInt(constants.DelegationZnnRewardPercentage+constants.MomentumProducingZnnRewardPercentage))
+	share.Mul(share, new(big.Int).SetUint64(slots))
+	share.Quo(share, big.NewInt(100*constants.MomentumsPerEpoch))
+	h.out.Oracle(z.Cmp(bound) <= 0 && z.Cmp(share) <= 0 && q.Sign() == 0, "pillar-credits-within-emission",
+		M{"epoch": U64(e), "credited": Big(z), "bound": Big(bound), "share": Big(share)})
+	h.out.Count("node:epochs-rewarded:pillar")
+}
+
+func (h *nodeHist) stakeEpoch(e uint64, entries []*definition.StakeInfo, credits []credit, lastOfUpdate bool, after store.Account) []*definition.StakeInfo {
+	s0, e0 := h.genesis+h.dur*int64(e), h.genesis+h.dur*int64(e+1)
+	lt := Lst()
+	for _, s := range entries {
+		lt = append(lt, Tup(I64(s.StartTime), I64(s.RevokeTime), Big(s.WeightedAmount), I64(int64(h.aidx(s.StakeAddress)))))
+	}
+	// entries that the routine deletes after rewarding them (cancelled before the end of the epoch)
+	var rest []*definition.StakeInfo
+	if len(credits) == 0 {
+		rest = entries
+	} else {
+		for _, s := range entries {
+			if !(s.RevokeTime != 0 && s.RevokeTime < e0) {
+				rest = append(rest, s)
+			}
+		}
+	}
+	left := len(rest)
+	if lastOfUpdate {
+		left = 0
+		definition.IterateStakeEntries(after.Storage(), func(*definition.StakeInfo) error { left++; return nil })
+	}
+	tag := "node"
+	if len(entries) == 0 {
+		tag = "node-no-entries"
+	} else if len(rest) < len(entries) {
+		tag = "node-entries-deleted"
+	}
+	h.out.Case("stake_epoch", Tup(U64(e), I64(s0), I64(e0), lt), Tup(I64(0), credTerm(credits, false), I64(int64(left))), tag)
+	z, q := sumCredits(credits)
+	h.out.Oracle(q.Cmp(constants.StakeQsrRewardPerEpoch(e)) <= 0 && z.Sign() == 0, "stake-credits-within-emission",
+		M{"epoch": U64(e), "credited": Big(q), "bound": Big(constants.StakeQsrRewardPerEpoch(e))})
+	h.out.Count("node:epochs-rewarded:stake")
+	return rest
+}
+
+func (h *nodeHist) sentinelEpoch(e uint64, entries []*definition.SentinelInfo, credits []credit) {
+	s0, e0 := h.genesis+h.dur*int64(e), h.genesis+h.dur*int64(e+1)
+	lt := Lst()
+	for _, s := range entries {
+		lt = append(lt, Tup(I64(s.RegistrationTimestamp), I64(s.RevokeTimestamp), I64(int64(h.aidx(s.Owner)))))
+	}
+	tag := "node"
+	if len(entries) == 0 {
+		tag = "node-no-entries"
+	} else if len(credits) < len(entries) {
+		tag = "node-some-inactive"
+	}
+	h.out.Case("sentinel_epoch", Tup(U64(e), I64(s0), I64(e0), lt), Tup(I64(0), credTerm(credits, true), credTerm(credits, false)), tag)
+	z, q := sumCredits(credits)
+	bz, bq := constants.SentinelRewardForEpoch(e)
+	h.out.Oracle(z.Cmp(bz) <= 0 && q.Cmp(bq) <= 0, "sentinel-credits-within-emission",
+		M{"epoch": U64(e), "znn": Big(z), "qsr": Big(q), "bound_znn": Big(bz), "bound_qsr": Big(bq)})
+	h.out.Count("node:epochs-rewarded:sentinel")
+}
+
+// liquidity contract (method table before the bridge-and-liquidity spork): two mints per rewarded epoch
+func (h *nodeHist) liquidityUpdate(b *nom.AccountBlock, lastBefore, lastAfter int64) {
+	mints, okShape := mintsOf(b.DescendantBlocks, types.LiquidityContract)
+	rewarded := int64(len(mints) / 2)
+	okAmounts := okShape && len(mints)%2 == 0
+	for i := int64(0); i < rewarded && okAmounts; i++ {
+		z, q := constants.LiquidityRewardForEpoch(uint64(lastBefore + 1 + i))
+		okAmounts = fmt.Sprint(mints[2*i]) == fmt.Sprint(Tup(I64(0), Big(z))) && fmt.Sprint(mints[2*i+1]) == fmt.Sprint(Tup(I64(1), Big(q)))
+	}
+	h.out.Oracle(okAmounts, "liquidity-mints-the-epoch-amounts", M{"last_before": I64(lastBefore), "mints": mints})
+	// each epoch the cursor passes is rewarded
+	h.out.Oracle(lastAfter-lastBefore == rewarded, "liquidity-cursor-rewards-every-epoch-it-passes",
+		M{"where": "real node: Update send -> contract receive", "last": I64(lastBefore), "new_last": I64(lastAfter), "rewarded_epochs": I64(rewarded), "epoch_duration": I64(h.dur)})
+	for _, db := range b.DescendantBlocks {
+		p := new(definition.MintParam)
+		definition.ABIToken.UnpackMethod(p, definition.MintMethodName, db.Data)
+		if p.TokenStandard == types.ZnnTokenStandard {
+			h.liqMint[0].Add(h.liqMint[0], p.Amount)
+		} else {
+			h.liqMint[1].Add(h.liqMint[1], p.Amount)
+		}
+	}
+	ep := Lst()
+	for i := int64(0); i < rewarded; i++ {
+		ep = append(ep, I64(lastBefore+1+i))
+	}
+	ackM, _ := h.nd.Ch.GetFrontierMomentumStore().GetMomentumByHash(b.MomentumAcknowledged.Hash)
+	tag := "node-liquidity"
+	if rewarded > 10 || lastAfter-lastBefore > 10 {
+		tag = "node-liquidity-more-than-ten-due"
+	}
+	h.out.Case("cursor", Tup(I64(1), I64(h.genesis), I64(h.dur), I64(ackM.Timestamp.Unix()), I64(lastBefore)), Tup(ep, I64(lastAfter)), tag)
+	h.out.Count("node:epochs-rewarded:liquidity")
+}
+
+func (h *nodeHist) observeCollect(c types.Address, b, sendB *nom.AccountBlock, before, after store.Account) {
+	who := sendB.Address
+	db0, _ := definition.GetRewardDeposit(before.Storage(), &who)
+	db1, _ := definition.GetRewardDeposit(after.Storage(), &who)
+	mints, okShape := mintsOf(b.DescendantBlocks, who)
+	st := int64(0)
+	if len(mints) == 0 && db0.Znn.Cmp(db1.Znn) == 0 && db0.Qsr.Cmp(db1.Qsr) == 0 {
+		st = 1
+	}
+	tag := "node-minted"
+	if st == 1 {
+		tag = "node-nothing-to-withdraw"
+	}
+	h.out.Case("collect", Tup(Big(db0.Znn), Big(db0.Qsr)), Tup(I64(st), mints, Tup(Big(db1.Znn), Big(db1.Qsr))), tag)
+	mz, mq := big.NewInt(0), big.NewInt(0)
+	for _, d := range b.DescendantBlocks {
+		p := new(definition.MintParam)
+		definition.ABIToken.UnpackMethod(p, definition.MintMethodName, d.Data)
+		if p.TokenStandard == types.ZnnTokenStandard {
+			mz.Add(mz, p.Amount)
+		} else {
+			mq.Add(mq, p.Amount)
+		}
+	}
+	ok := okShape && mz.Cmp(db0.Znn) == 0 && mq.Cmp(db0.Qsr) == 0 && db1.Znn.Sign() == 0 && db1.Qsr.Sign() == 0
+	h.out.Oracle(ok, "collect-mints-exactly-the-deposit",
+		M{"contract": contractName[c], "deposit_znn": Big(db0.Znn), "deposit_qsr": Big(db0.Qsr), "minted_znn": Big(mz), "minted_qsr": Big(mq)})
+	m := h.minted[c]
+	cur, okc := m[who]
+	if !okc {
+		cur = [2]*big.Int{big.NewInt(0), big.NewInt(0)}
+	}
+	cur[0].Add(cur[0], mz)
+	cur[1].Add(cur[1], mq)
+	m[who] = cur
+}
+
+// ---- actions
+var actors = []*wallet.KeyPair{g.User1, g.User2, g.User3, g.User4, g.User5, g.Spork, g.Pillar4, g.Pillar5, g.Pillar6, g.Pillar7, g.Pillar8}
+var pillarCandidates = []int{3, 4, 5} // indices into g.PillarKeys (Pillar4..6)
+var newPillarNames = map[int]string{3: g.Pillar4Name, 4: g.Pillar5Name, 5: g.Pillar6Name}
+var sentinelCandidates = []*wallet.KeyPair{g.User1, g.User2, g.Spork, g.Pillar7, g.Pillar8}
+
+func (h *nodeHist) activeNames() []string {
+	l, err := definition.GetPillarsList(h.nd.Ch.GetFrontierAccountStore(types.PillarContract).Storage(), true, definition.AnyPillarType)
+	if err != nil {
+		panic(err)
+	}
+	r := make([]string, 0, len(l))
+	for _, p := range l {
+		r = append(r, p.Name)
+	}
+	sort.Strings(r)
+	return r
+}
+
+func (h *nodeHist) act() {
+	rng := h.rng
+	switch rng.Intn(16) {
+	case 0, 1: // delegate
+		names := h.activeNames()
+		if len(names) > 0 {
+			u := actors[rng.Intn(len(actors))]
+			h.send(u, types.PillarContract, types.ZnnTokenStandard, nil, definition.ABIPillars.PackMethodPanic(definition.DelegateMethodName, names[rng.Intn(len(names))]))
+			h.out.Count("node:act:delegate")
+		}
+	case 2: // undelegate
+		u := actors[rng.Intn(len(actors))]
+		h.send(u, types.PillarContract, types.ZnnTokenStandard, nil, definition.ABIPillars.PackMethodPanic(definition.UndelegateMethodName))
+		h.out.Count("node:act:undelegate")
+	case 3, 4: // pillar registration (two steps) / revocation
+		i := pillarCandidates[rng.Intn(len(pillarCandidates))]
+		kp := g.PillarKeys[i]
+		switch h.pillarStage[i] {
+		case 0:
+			cost := new(big.Int).Add(constants.PillarQsrStakeBaseAmount, new(big.Int).Mul(constants.PillarQsrStakeIncreaseAmount, big.NewInt(3)))
+			if h.send(kp, types.PillarContract, types.QsrTokenStandard, cost, definition.ABIPillars.PackMethodPanic(definition.DepositQsrMethodName)) != nil {
+				h.pillarStage[i], h.pillarAt[i] = 1, h.height()
+			}
+		case 1:
+			if h.height() >= h.pillarAt[i]+3 {
+				reward := actors[rng.Intn(len(actors))].Address
+				gb, gd := uint8(rng.Intn(101)), uint8(rng.Intn(101))
+				if h.send(kp, types.PillarContract, types.ZnnTokenStandard, constants.PillarStakeAmount,
+					definition.ABIPillars.PackMethodPanic(definition.RegisterMethodName, newPillarNames[i], kp.Address, reward, gb, gd)) != nil {
+					h.pillarStage[i], h.pillarAt[i] = 2, h.height()
+					h.out.Count("node:act:register-pillar")
+				}
+			}
+		case 2:
+			if h.short && rng.Intn(3) == 0 {
+				if h.send(kp, types.PillarContract, types.ZnnTokenStandard, nil, definition.ABIPillars.PackMethodPanic(definition.RevokeMethodName, newPillarNames[i])) != nil {
+					h.out.Count("node:act:revoke-pillar-attempt")
+				}
+			}
+		}
+	case 5: // change give-percentages / reward address of an existing pillar
+		type own struct {
+			kp   *wallet.KeyPair
+			name string
+		}
+		owners := []own{{g.Pillar1, g.Pillar1Name}, {g.Pillar2, g.Pillar2Name}, {g.Pillar3, g.Pillar3Name}}
+		for i, n := range newPillarNames {
+			if h.pillarStage[i] == 2 {
+				owners = append(owners, own{g.PillarKeys[i], n})
+			}
+		}
+		o := owners[rng.Intn(len(owners))]
+		reward := o.kp.Address
+		if rng.Intn(2) == 0 {
+			reward = actors[rng.Intn(len(actors))].Address
+		}
+		h.send(o.kp, types.PillarContract, types.ZnnTokenStandard, nil,
+			definition.ABIPillars.PackMethodPanic(definition.UpdatePillarMethodName, o.name, o.kp.Address, reward, uint8(rng.Intn(101)), uint8(rng.Intn(101))))
+		h.out.Count("node:act:update-pillar")
+	case 6, 7: // stake
+		u := actors[rng.Intn(6)]
+		k := int64(1 + rng.Intn(12))
+		amt := new(big.Int).Mul(big.NewInt(int64(1+rng.Intn(50))), big.NewInt(g.Zexp))
+		if b := h.send(u, types.StakeContract, types.ZnnTokenStandard, amt, definition.ABIStake.PackMethodPanic(definition.StakeMethodName, k*constants.StakeTimeUnitSec)); b != nil {
+			h.stakes = append(h.stakes, &stakeRef{owner: u, id: b.Hash, exp: h.nowTs() + k*constants.StakeTimeUnitSec + 20})
+			h.out.Count("node:act:stake")
+		}
+	case 8: // cancel an expired stake
+		for _, s := range h.stakes {
+			if !s.gone && s.exp <= h.nowTs() {
+				if h.send(s.owner, types.StakeContract, types.ZnnTokenStandard, nil, definition.ABIStake.PackMethodPanic(definition.CancelStakeMethodName, s.id)) != nil {
+					s.gone = true
+					h.out.Count("node:act:cancel-stake")
+				}
+				break
+			}
+		}
+	case 9, 10: // sentinel registration (two steps) / revocation
+		kp := sentinelCandidates[rng.Intn(len(sentinelCandidates))]
+		switch h.sentStage[kp.Address] {
+		case 0:
+			if h.send(kp, types.SentinelContract, types.QsrTokenStandard, constants.SentinelQsrDepositAmount, definition.ABISentinel.PackMethodPanic(definition.DepositQsrMethodName)) != nil {
+				h.sentStage[kp.Address], h.sentAt[kp.Address] = 1, h.height()
+			}
+		case 1:
+			if h.height() >= h.sentAt[kp.Address]+3 {
+				if h.send(kp, types.SentinelContract, types.ZnnTokenStandard, constants.SentinelZnnRegisterAmount, definition.ABISentinel.PackMethodPanic(definition.RegisterSentinelMethodName)) != nil {
+					h.sentStage[kp.Address] = 2
+					h.out.Count("node:act:register-sentinel")
+				}
+			}
+		case 2:
+			if h.short && rng.Intn(3) == 0 {
+				h.send(kp, types.SentinelContract, types.ZnnTokenStandard, nil, definition.ABISentinel.PackMethodPanic(definition.RevokeSentinelMethodName))
+				h.out.Count("node:act:revoke-sentinel-attempt")
+			}
+		}
+	case 11, 12, 13: // collect
+		u := actors[rng.Intn(len(actors))]
+		if rng.Intn(4) == 0 {
+			u = []*wallet.KeyPair{g.Pillar1, g.Pillar2, g.Pillar3}[rng.Intn(3)]
+		}
+		c := rewardContracts[rng.Intn(3)]
+		h.send(u, c, types.ZnnTokenStandard, nil, collectData)
+		h.out.Count("node:act:collect")
+	default: // Update sent by a user (the only source of updates when the pillars' automatic update is off)
+		u := actors[rng.Intn(len(actors))]
+		c := rewardContracts[rng.Intn(4)]
+		h.send(u, c, types.ZnnTokenStandard, nil, updateData)
+		h.out.Count("node:act:update")
+	}
+}
+
+func znnSupply(nd *Node) *big.Int {
+	ti, err := nd.Ch.GetFrontierMomentumStore().GetTokenInfoByTs(types.ZnnTokenStandard)
+	if err != nil {
+		panic(err)
+	}
+	return new(big.Int).Set(ti.TotalSupply)
+}
+
+func newHist(rng *rand.Rand, out *Out, durSec int64, auto, short bool) *nodeHist {
+	setWindows(short)
+	if auto {
+		types.EmbeddedWUpdate = append([]types.Address{}, defaultWUpdate...)
+	} else {
+		types.EmbeddedWUpdate = []types.Address{}
+	}
+	nd := newNodeEpoch(time.Duration(durSec) * time.Second)
+	h := &nodeHist{nd: nd, rng: rng, out: out, dur: durSec, genesis: nd.Ch.GetGenesisMomentum().Timestamp.Unix(), short: short, auto: auto,
+		addrIdx: map[types.Address]int{}, nameIdx: map[string]int{}, seen: map[types.Address]uint64{},
+		minted: map[types.Address]map[types.Address][2]*big.Int{}, liqMint: [2]*big.Int{big.NewInt(0), big.NewInt(0)}, stats: map[uint64]string{},
+		pillarStage: map[int]int{}, pillarAt: map[int]uint64{}, sentStage: map[types.Address]int{}, sentAt: map[types.Address]uint64{}}
+	for _, c := range rewardContracts {
+		h.minted[c] = map[types.Address][2]*big.Int{}
+		h.seen[c] = nd.Ch.GetFrontierAccountStore(c).Identifier().Height
+	}
+	for _, kp := range g.AllKeyPairs {
+		h.aidx(kp.Address)
+	}
+	for _, n := range []string{g.Pillar1Name, g.Pillar2Name, g.Pillar3Name, g.Pillar4Name, g.Pillar5Name, g.Pillar6Name} {
+		h.nidx(n)
+	}
+	h.supply0 = znnSupply(nd)
+	return h
+}
+
+func nodeHistory(rng *rand.Rand, out *Out) {
+	durSec := []int64{600, 600, 600, 900, 900, 1800, 3600}[rng.Intn(7)] // 300 s = one election tick is not supported by consensus/points.go (tick multiplier 1)
+	auto := rng.Intn(2) == 0
+	short := rng.Intn(2) == 0
+	h := newHist(rng, out, durSec, auto, short)
+	defer h.nd.Stop()
+	out.Count(fmt.Sprintf("node:history:epoch=%ds:auto-update=%v:short-windows=%v", durSec, auto, short))
+	perEpoch := durSec / 10
+	length := 360 + perEpoch*int64(3+rng.Intn(5))
+	if length > 1100 {
+		length = 1100
+	}
+	if length < 700 && rng.Intn(2) == 0 {
+		length += 200
+	}
+	busyUntil := length - 40
+	for i := int64(0); i < length; i++ {
+		if i < busyUntil {
+			for k := 0; k < 2; k++ {
+				if rng.Intn(5) == 0 {
+					h.act()
+				}
+			}
+			if !auto && rng.Intn(40) == 0 {
+				for _, c := range rewardContracts {
+					h.send(actors[rng.Intn(len(actors))], c, types.ZnnTokenStandard, nil, updateData)
+				}
+				out.Count("node:act:update-all")
+			}
+		}
+		h.momentum()
+	}
+	h.finish()
+}
+
+// end-of-history oracles
+func (h *nodeHist) finish() {
+	for i := 0; i < 6; i++ {
+		h.nd.Momentum()
+		h.observe()
+	}
+	// minted + still deposited = credited, per contract and address
+	for _, c := range rewardContracts[:3] {
+		st := h.nd.Ch.GetFrontierAccountStore(c)
+		hist := readHistory(st.Storage(), h.aidx)
+		credited := map[int][2]*big.Int{}
+		for _, l := range hist {
+			for _, cr := range l {
+				cur, ok := credited[cr.addr]
+				if !ok {
+					cur = [2]*big.Int{big.NewInt(0), big.NewInt(0)}
+				}
+				cur[0].Add(cur[0], cr.znn)
+				cur[1].Add(cur[1], cr.qsr)
+				credited[cr.addr] = cur
+			}
+		}
+		for addr, i := range h.addrIdx {
+			cr, ok := credited[i]
+			if !ok {
+				cr = [2]*big.Int{big.NewInt(0), big.NewInt(0)}
+			}
+			a := addr
+			dep, _ := definition.GetRewardDeposit(st.Storage(), &a)
+			m, okm := h.minted[c][addr]
+			if !okm {
+				m = [2]*big.Int{big.NewInt(0), big.NewInt(0)}
+			}
+			if !ok && !okm && dep.Znn.Sign() == 0 && dep.Qsr.Sign() == 0 {
+				continue
+			}
+			okc := new(big.Int).Add(m[0], dep.Znn).Cmp(cr[0]) == 0 && new(big.Int).Add(m[1], dep.Qsr).Cmp(cr[1]) == 0
+			h.out.Oracle(okc, "minted-plus-deposit-equals-credited",
+				M{"contract": contractName[c], "address": I64(int64(i)), "credited_znn": Big(cr[0]), "credited_qsr": Big(cr[1]),
+					"minted_znn": Big(m[0]), "minted_qsr": Big(m[1]), "deposit_znn": Big(dep.Znn), "deposit_qsr": Big(dep.Qsr)})
+		}
+	}
+	// ZNN supply grew by exactly what was minted for collected rewards and for the liquidity contract
+	want := new(big.Int).Set(h.liqMint[0])
+	for _, c := range rewardContracts {
+		for _, m := range h.minted[c] {
+			want.Add(want, m[0])
+		}
+	}
+	grown := new(big.Int).Sub(znnSupply(h.nd), h.supply0)
+	h.out.Oracle(grown.Cmp(want) == 0, "znn-supply-grows-by-collected-rewards", M{"grown": Big(grown), "minted_by_rewards": Big(want)})
+
+	// the statistics used for the rewards do not depend on the consensus cache: a consensus module with a cold
+	// cache over the same chain reports the same statistics
+	cs2 := consensus.NewConsensus(db.NewMemDB(), h.nd.Ch, true)
+	rd := cs2.FixedPillarReader(h.nd.Ch.GetFrontierMomentumStore().Identifier())
+	for e, s := range h.stats {
+		st, err := rd.EpochStats(e)
+		h.out.Oracle(err == nil && st != nil && statsString(st) == s, "epoch-stats-independent-of-cache", M{"epoch": U64(e), "at_reward_time": s})
+	}
+}
+
+// ---- deterministic reproduction of the liquidity finding on the real node, every run:
+// 10-minute epochs, nobody calls Update until 12 epochs are due, then one Update
+func liquidityLateUpdate(out *Out) {
+	rng := rand.New(rand.NewSource(11))
+	h := newHist(rng, out, 600, false, false)
+	defer h.nd.Stop()
+	for i := 0; i < 60*12+360+3; i++ {
+		h.nd.Momentum()
+	}
+	h.observe()
+	h.send(g.User1, types.LiquidityContract, types.ZnnTokenStandard, nil, updateData)
+	for i := 0; i < 4; i++ {
+		h.nd.Momentum()
+		h.observe()
+	}
+	out.Count("node:repro:liquidity-late-update")
+	// a second Update continues after the skipped epoch
+	for i := 0; i < int(constants.UpdateMinNumMomentums); i++ {
+		h.nd.Momentum()
+	}
+	h.observe()
+	h.send(g.User2, types.LiquidityContract, types.ZnnTokenStandard, nil, updateData)
+	for i := 0; i < 4; i++ {
+		h.nd.Momentum()
+		h.observe()
+	}
+}
